@@ -184,6 +184,29 @@ func ruleC32(c *Ctx) {
 		// nonces: two distinct cells from genNonces
 		okn := len(callsTo(mk, false, "p2p/connection.genNonces")) == 1
 		c.Require("dataflow", fname(mk)+": send and receive nonces come from genNonces (two distinct cells)", okn, "recvNonce, sendNonce := genNonces(…)")
+		// the two directions differ on every path: the bit flip that separates them is unconditional
+		if gn := c.Func(pConn, "genNonces"); gn != nil {
+			flips, uncond := 0, true
+			for _, b := range gn.Blocks {
+				for _, in := range b.Instrs {
+					st, isSt := in.(*ssa.Store)
+					if !isSt {
+						continue
+					}
+					bo, isB := st.Val.(*ssa.BinOp)
+					if _, isIA := st.Addr.(*ssa.IndexAddr); !isIA || !isB || bo.Op.String() != "^" {
+						continue
+					}
+					flips++
+					for _, ri := range returnsOf(gn) {
+						if !b.Dominates(ri.Ret.Block()) {
+							uncond = false
+						}
+					}
+				}
+			}
+			c.Require("fieldinit", fname(gn)+": the send and receive nonce differ on every path (unconditional bit flip)", flips >= 1 && uncond, "%d flip(s); every one must dominate all returns", flips)
+		}
 	}
 	c.Floor("readimpl", 3)
 	c.Floor("pairing", 2)
